@@ -48,7 +48,7 @@ def canaries():
 
 def plan(tier):
     if tier == 'quick':
-        return {'runs': 3000, 'wall': 300, 'batch': 4, 'shrink_s': 60, 'selfcheck': 6}
+        return {'runs': 4000, 'wall': 300, 'batch': 4, 'shrink_s': 60, 'selfcheck': 6}
     return {'runs': 300000, 'wall': 2.5 * 3600, 'batch': 8, 'shrink_s': 120, 'selfcheck': 16}
 
 
